@@ -37,6 +37,10 @@ pub struct Case {
     pub dense: bool,
     pub events: Vec<EvSpec>,
     pub max_steps: Option<usize>,
+    /// the right-hand side turns non-finite from a time inside the span (`at` = fraction) or outside a
+    /// ball in state space: the run must end without Success and with a valid prefix
+    #[serde(default)]
+    pub fault: Option<Fault>,
 }
 
 pub fn check(c: &Case) -> Outcome {
@@ -58,6 +62,11 @@ pub fn check(c: &Case) -> Outcome {
     let mut instr = Instr::new(&prob, &evs);
     instr.dir = d;
     instr.rec_ev = true;
+    instr.fault = c.fault.as_ref().map(|f| match f {
+        Fault::From { at, v } => Fault::From { at: x0 + at * d * len, v: *v },
+        Fault::CompFrom { at, i, v } => Fault::CompFrom { at: x0 + at * d * len, i: *i, v: *v },
+        other => other.clone(),
+    });
     instr.budget = 3_000_000;
     let first_step = c.first_step.map(|f| f * len);
     let max_step = match &c.max_step {
@@ -89,6 +98,9 @@ pub fn check(c: &Case) -> Outcome {
         RunResult::Panic(m) => return Outcome::triv(format!("panic(owned by C04): {}", m.chars().take(40).collect::<String>())),
         RunResult::Budget => return Outcome::triv("budget(owned by C04)"),
     };
+    if std::env::var_os("VF_DEBUG").is_some() {
+        eprintln!("C03-DEBUG status {:?} nfev {} nstep {} naccpt {} nrejct {}\n t = {:?}\n y = {:?}\n step ends = {:?}", sol.status, sol.nfev, sol.nstep, sol.naccpt, sol.nrejct, sol.t, sol.y, log.ev_t);
+    }
     let tslack = |t: f64| tau(x0, xend, t);
     let desc = format!("{} {}", c.method.name(), status_name(sol.status));
 
@@ -263,8 +275,13 @@ pub fn strategy() -> BoxedStrategy<Case> {
         any::<bool>(),
         proptest::collection::vec(event_spec(4, false), 0..=2),
         proptest::option::weighted(0.25, 1usize..60),
+        proptest::option::weighted(0.08, prop_oneof![
+            3 => (fr(0.05, 0.98), 0u8..3).prop_map(|(at, v)| Fault::From { at, v }),
+            1 => (fr(0.05, 0.98), 0usize..4, 0u8..3).prop_map(|(at, i, v)| Fault::CompFrom { at, i, v }),
+            2 => (fr(0.3, 3.0), 0u8..3).prop_map(|(theta, v)| Fault::NormAbove { theta, v }),
+        ]),
     )
-        .prop_map(|(prob, span, method, (rtol, atol), first_step, max_step, t_eval, dense, mut events, max_steps)| {
+        .prop_map(|(prob, span, method, (rtol, atol), first_step, max_step, t_eval, dense, mut events, max_steps, fault)| {
             let n: usize = prob.blocks.iter().map(|b| b.dim()).sum();
             fix_events(&mut events, n);
             // RK4: first_step is the fixed step; keep the number of steps bounded
@@ -272,13 +289,13 @@ pub fn strategy() -> BoxedStrategy<Case> {
                 (Meth::RK4, Some(f)) if f.abs() < 2e-3 => Some(f.signum() * 2e-3),
                 (_, f) => f,
             };
-            Case { prob, span, infinite: false, method, rtol, atol, first_step, max_step, t_eval, dense, events, max_steps }
+            Case { prob, span, infinite: false, method, rtol, atol, first_step, max_step, t_eval, dense, events, max_steps, fault }
         });
     let infinite = (global_spec(3), span_wide(-2.0, 2.0), any_method(), tols(3, 3.0, 7.0), fr(-2.5, 0.0), any::<bool>(), max_step, any::<bool>())
         .prop_map(|(prob, span, method, (rtol, atol), fe, has_first, max_step, dense)| {
             let first_step = if method == Meth::RK4 || has_first { Some(10f64.powf(fe) * span.dir()) } else { None };
             // max_step relative to theta; Inf/None both mean unbounded here
-            Case { prob, span, infinite: true, method, rtol, atol, first_step, max_step, t_eval: None, dense, events: vec![], max_steps: None }
+            Case { prob, span, infinite: true, method, rtol, atol, first_step, max_step, t_eval: None, dense, events: vec![], max_steps: None, fault: None }
         });
     prop_oneof![9 => finite, 1 => infinite].boxed()
 }
